@@ -167,9 +167,7 @@ func main() {
 			b = []byte(strings.ReplaceAll(strings.ReplaceAll(string(b), "\"scratch/papi\"", "\"scratch/"+pdir+"\""), "\"scratch/mapi\"", "\"scratch/"+mdir+"\""))
 			_ = os.WriteFile(p, b, 0o644)
 		}
-		if err := sc.Build(fmt.Sprintf("driver%d", ci), fmt.Sprintf("driver%d.bin", ci)); err != nil {
-			vf.Fatal("%v", err)
-		}
+		sc.BuildChecked(r, fmt.Sprintf("driver%d", ci), fmt.Sprintf("driver%d.bin", ci))
 		sum := sc.RunDriver(r, fmt.Sprintf("driver%d.bin", ci), nil, "--config", strings.Join(feats, ","))
 		for k, v := range sum.Stats {
 			r.Add(k, v)
